@@ -153,7 +153,10 @@ def check_lis_plot(case, cc):
         with open(path, 'wb') as f:
             f.write(data)
         os.makedirs(os.path.join(d, 'out'))
-        info, svgs, logged, err = c19.plot_lis_file(path, os.path.join(d, 'out'), [case['format']])
+        api = case['frames'] % 3 == 0          # tdplotlogs -A: the API header on top of the log
+        cc.cls('genlis:api-header', api)
+        cc.cls('genlis:api-header-on-a-down-log', api and not case['up'])
+        info, svgs, logged, err = c19.plot_lis_file(path, os.path.join(d, 'out'), [case['format']], api)
         if err is not None:
             cc.unexpected(err)
             return
